@@ -95,7 +95,7 @@ theorem preorder_updAt (f : KV → KV) (t : Forest) : ∀ (r : Addr) (idx : Nat)
     intro r idx pre
     match r with
     | [] => simp [updAt]
-    | [0] => simp [updAt, preorder]
+    | [0] => simp [updAt, preorder, Node.updUser]
     | 0 :: j :: rest => simp [updAt, preorder, ihk]
     | (i+1) :: rest => simp [updAt, preorder, ihn]
 
@@ -232,6 +232,62 @@ theorem isAnc_sibling (pre : Addr) (i j : Nat) (rest : Addr) (h : i ≠ j) :
   | cons x more ih => simp [isAnc, ih]
 
 /-! ## iterator expansion -/
+
+theorem instancesWith_code (var : String) (n : Node) (kids rest : Forest) (vals : List String) :
+    instancesWith codeLoad var n kids rest vals = instances var n kids rest vals := by
+  induction vals with
+  | nil => rfl
+  | cons v vs ih =>
+    have h : instantiate codeLoad n var v = withIter n var v := by
+      simp [instantiate, LoadCfg.publishes, codeLoad]
+    simp only [instancesWith, instances, h, ih]
+
+theorem load_code (t : TForest) : load codeLoad t = expand t := by
+  induction t with
+  | nil => rfl
+  | role n kids next ihk ihn => simp only [load, expand, ihk, ihn]
+  | iter var vals n kids next ihk ihn => simp only [load, expand, ihk, ihn, instancesWith_code]
+
+theorem instancesWith_plain (cfg : LoadCfg) (hp : cfg.plainPublishes = true) (var : String) (n : Node) (hn : n.site = false)
+    (kids rest : Forest) (vals : List String) :
+    instancesWith cfg var n kids rest vals = instances var n kids rest vals := by
+  induction vals with
+  | nil => rfl
+  | cons v vs ih =>
+    have h : instantiate cfg n var v = withIter n var v := by
+      simp [instantiate, LoadCfg.publishes, hn, hp]
+    simp only [instancesWith, instances, h, ih]
+
+theorem load_noIteratedSite (cfg : LoadCfg) (hp : cfg.plainPublishes = true) (t : TForest)
+    (h : noIteratedSite t = true) : load cfg t = expand t := by
+  induction t with
+  | nil => rfl
+  | role n kids next ihk ihn =>
+    simp only [noIteratedSite, Bool.and_eq_true] at h
+    simp only [load, expand, ihk h.1, ihn h.2]
+  | iter var vals n kids next ihk ihn =>
+    simp only [noIteratedSite, Bool.and_eq_true, Bool.not_eq_true'] at h
+    simp only [load, expand, ihk h.1.2, ihn h.2, instancesWith_plain cfg hp var n h.1.1]
+
+/-- The levels a chain contributes around its `i`-th role: the roles below it (nearer), the role, the
+    roles above it and the environment. -/
+theorem pathOf_split (c : List Node) (env : Path) (i : Nat) (hi : i < c.length) :
+    pathOf c env = pathOf (c.drop (i + 1)) [] ++ c[i].own :: pathOf (c.take i) env := by
+  have h1 : c.take i ++ c.drop i = c := List.take_append_drop i c
+  have h2 : c.drop i = c[i] :: c.drop (i + 1) := List.drop_eq_getElem_cons hi
+  calc pathOf c env = pathOf (c.take i ++ c[i] :: c.drop (i + 1)) env := by rw [← h2, h1]
+    _ = _ := by
+      simp only [pathOf, List.reverse_append, List.reverse_cons, List.map_append, List.map_cons,
+        List.append_assoc, List.cons_append, List.nil_append, List.append_nil]
+
+/-- Below an instance of an iterator the iteration variable is a VAR of that instance: a var of a role
+    nearer than the instance still wins, nothing above the instance is consulted. -/
+theorem get_vChain_withIter (c : List Node) (env : Path) (i : Nat) (hi : i < c.length) (n : Node) (var val : String)
+    (hc : c[i] = withIter n var val) :
+    get (vChain (pathOf c env)) var = orElse (get (vChain (pathOf (c.drop (i + 1)) [])) var) (some val) := by
+  rw [pathOf_split c env i hi, hc]
+  simp only [vChain, List.map_append, List.map_cons, get_append, get_cons, withIter, lookup_set, if_true]
+  cases get (List.map (fun x => x.vars) (pathOf (List.drop (i + 1) c) [])) var <;> rfl
 
 theorem chainAt_instances (var : String) (n : Node) (kids rest : Forest) (vals : List String) :
     ∀ (j : Nat) (hj : j < vals.length) (more : Addr),
